@@ -93,6 +93,48 @@ def _wrap(func, key, pre, post, raised):
     return wrapper
 
 
+_HOOKS = []
+PROPAGATED = []
+
+
+def _all_subclasses(cls):
+    out = []
+    for sub in cls.__subclasses__():
+        out.append(sub)
+        out.extend(_all_subclasses(sub))
+    return out
+
+
+def _is_wrapped(attr, which):
+    if isinstance(attr, property):
+        f = attr.fget if which == "get" else attr.fset
+    elif isinstance(attr, cached_property):
+        f = attr.func
+    else:
+        f = attr
+    return f is None or hasattr(f, "__verif_wrapped__")
+
+
+def propagate_overrides():
+    """A subclass that *overrides* a monitored member escapes the monitor: its instances never reach the wrapped parent
+    attribute.  After a check has installed its hooks, every such override that carries no monitor of its own gets the
+    parent's callbacks (a monitor of a class holds for everything that is-a that class; callbacks meant for one exact
+    type test ``type(self)`` themselves).  On the unchanged tree this only adds what the checks' own type tests ignore;
+    it matters for changes that introduce a new override (a 'fast' ConvexPolygon.is_inside, say)."""
+    for cls, name, pre, post, raised, which in list(_HOOKS):
+        for sub in _all_subclasses(cls):
+            if name not in sub.__dict__ or not sub.__module__.startswith("coxeter"):
+                continue
+            a = inspect.getattr_static(sub, name)
+            if isinstance(a, (classmethod, staticmethod)) or _is_wrapped(a, which):
+                continue
+            if which == "set" and not isinstance(a, property):
+                continue
+            hook(sub, name, pre=pre, post=post, raised=raised, which=which)
+            PROPAGATED.append((cls.__name__, sub.__name__, name, which))
+    return list(PROPAGATED)
+
+
 def hook(cls, name, pre=None, post=None, raised=None, which="get"):
     """Wrap ``cls.name`` (method, property getter/setter, cached_property) in place.
 
@@ -104,6 +146,7 @@ def hook(cls, name, pre=None, post=None, raised=None, which="get"):
     attr = inspect.getattr_static(cls, name)
     own = name in cls.__dict__
     _installed.append((cls, name, attr if own else None))
+    _HOOKS.append((cls, name, pre, post, raised, which))
     if isinstance(attr, property):
         fget, fset = attr.fget, attr.fset
         if which == "get":
@@ -126,6 +169,8 @@ def hook(cls, name, pre=None, post=None, raised=None, which="get"):
 
 
 def unhook_all():
+    _HOOKS.clear()
+    PROPAGATED.clear()
     while _installed:
         cls, name, orig = _installed.pop()
         if orig is None:
